@@ -254,6 +254,7 @@ def run(ctx):
     local_rules(ctx, prog)
     poll_rules(ctx, prog)
     flag_word_rule(ctx, prog)
+    lifecycle_orderings(ctx, prog)
     # ---------------- R7 awaiter_set
     reg = prog.one("AwaiterSet::register")
     if reg is None:
@@ -621,3 +622,31 @@ def flag_word_rule(ctx, prog):
                    f"`{e['op']}` on the flag word" + ("" if ok else ": a whole-word write also clears/sets the OTHER flag - e.g. reset() wiping HAS_WAITERS makes the next set() skip the waiters"))
     if n == 0:
         ctx.missing("R11.flag-word-bitwise", "atomic writes on events::manual::EventInner::state")
+
+
+def lifecycle_orderings(ctx, prog):
+    """The awaiter's lifecycle byte is read outside the set's lock (fast paths of poll / drop): its stores must be release-ish and
+    the reads that act on NOTIFIED / registration acquire-ish, or the waiter may reuse or free its node before the notifier's
+    unlink is visible (and the notified task need not see what happened before the signal)."""
+    n = 0
+    for b in prog.bodies:
+        if b.crate != "awaiter_set" or "::tests" in b.key:
+            continue
+        for bb, t in b.calls():
+            if t["callee"].get("method") == "set_lifecycle" and len(t["args"]) >= 3:
+                ords = [resolve_const(b, a) for a in t["args"][1:]]
+                o = next((c.get("variant") for c in ords if c and str(c.get("adt", c.get("ty", ""))).endswith("atomic::Ordering")), None)
+                n += 1
+                ctx.ob("R6.orderings", f"awaiter_set.{b.key.split('::')[-1]}.set_lifecycle#{n}", releaseish(o), b.loc(t["span"]), f"lifecycle store ordering {o} (must be release-ish)")
+        if "awaiter::Awaiter::" in b.key:
+            for e in atomic_events(b):
+                if not (e["field"] and e["field"].endswith("lifecycle")):
+                    continue
+                if e["op"] == "load" and b.name in ("take_notification", "is_notified", "is_registered"):
+                    n += 1
+                    ctx.ob("R6.orderings", f"awaiter_set.Awaiter::{b.name}.load", acquireish(e["ords"][0] if e["ords"] else None), b.loc(e["term"]["span"]), f"lifecycle load ordering {e['ords']} (must be acquire-ish)")
+                if e["op"].startswith("compare_exchange"):
+                    n += 1
+                    ctx.ob("R6.orderings", f"awaiter_set.Awaiter::{b.name}.cas", acquireish(e["ords"][0] if e["ords"] else None), b.loc(e["term"]["span"]), f"lifecycle CAS success ordering {e['ords']} (must be acquire-ish)")
+    if n < 5:
+        ctx.missing("R6.orderings", f"awaiter lifecycle ordering sites (found {n})")
